@@ -28,16 +28,20 @@ typedef struct {
 } thr_t;
 static thr_t g_thr[VP_MAX_THREADS];
 
+#define SW_RING 2048
 typedef struct {
   _Atomic uintptr_t sched;
   _Atomic uint64_t sw;
   char pad[48];
+  const void* ring[SW_RING];  // last fibers switched to by this scheduler (only written by its own thread)
 } sched_t;
 static sched_t g_sched[VP_MAX_THREADS];
 static _Atomic long g_max_bypass;
+static _Atomic long g_max_excess = -1000000;  // max of (bypass - per_live * live_peak) while a limit is armed
 static _Atomic long g_bypass_limit;  // 0 = no online limit
 static _Atomic long g_bypass_slack_per_live;
 static _Atomic long g_live_peak;  // most fibers alive at once since the limit was set
+static _Atomic long g_arm_gen;    // incremented whenever the limit is (re)armed: waits that began under an earlier regime are not judged
 
 static vp_counter_t *c_switch, *c_migr, *c_steal, *c_skip, *c_sched, *c_create, *c_destroy, *c_direct, *c_early_wake,
     *c_sleep, *c_fdwait, *c_idle, *c_recreate;
@@ -162,12 +166,52 @@ static void ghost_obs(int point, const void* a, const void* b, int me) {
       if (mgr) {
         const int si = sched_idx(mgr->scheduler);
         const uint64_t sw = atomic_fetch_add(&g_sched[si].sw, 1) + 1;
-        if (!direct && atomic_load(&gn->queued_sched) == (uintptr_t)mgr->scheduler) {
+        g_sched[si].ring[(sw - 1) % SW_RING] = b;
+        if (!direct && atomic_load(&gn->queued_sched) == (uintptr_t)mgr->scheduler && atomic_load(&gn->mark_gen) == atomic_load(&g_arm_gen)) {
           const long bypass = (long)(sw - 1 - atomic_load(&gn->queued_mark));
           long cur = atomic_load(&g_max_bypass);
           while (bypass > cur && !atomic_compare_exchange_weak(&g_max_bypass, &cur, bypass)) {
           }
           const long lim = atomic_load(&g_bypass_limit);
+          if (lim) {
+            const long ex = bypass - atomic_load(&g_bypass_slack_per_live) * atomic_load(&g_live_peak);
+            if (ex > vp_param("bypass_debug", 1000000) && bypass < SW_RING) {
+              // diagnostics: who ran on this scheduler while the fiber waited
+              long k, distinct = 0, maxrep = 0, self = 0;
+              const void* seen[SW_RING];
+              long rep[SW_RING];
+              for (k = 1; k <= bypass; ++k) {
+                const void* f = g_sched[si].ring[(sw - 1 - (uint64_t)k) % SW_RING];
+                long q;
+                for (q = 0; q < distinct; ++q)
+                  if (seen[q] == f) break;
+                if (q == distinct) {
+                  seen[distinct] = f;
+                  rep[distinct++] = 0;
+                }
+                if (++rep[q] > maxrep) maxrep = rep[q];
+                if (f == b) ++self;
+              }
+              fprintf(stderr, "[bypass-debug] fiber %p on sched %d: bypass %ld, live peak %ld, %ld distinct fibers ran, most often %ld times, itself %ld times\n", b, si, bypass,
+                      atomic_load(&g_live_peak), distinct, maxrep, self);
+              long nd = 0, nf = 0, nq = 0, nthr = 0;
+              for (k = 0; k < distinct; ++k) {
+                vp_gfiber_t* gg = gfind(seen[k], 0);
+                if (!gg) continue;
+                if (atomic_load(&gg->destroyed)) ++nd;
+                if (atomic_load(&gg->finishing)) ++nf;
+                if (atomic_load(&gg->pending) > 0) ++nq;
+                if (atomic_load(&gg->is_thread)) ++nthr;
+              }
+              fprintf(stderr, "[bypass-debug]   of those: %ld destroyed by now, %ld finishing, %ld queued now, %ld thread fibers; live now %ld; waited fiber finishing=%d gen=%d switches_in=%llu\n", nd, nf, nq, nthr,
+                      atomic_load(&g_live), atomic_load(&gn->finishing), (int)atomic_load(&gn->gen), (unsigned long long)atomic_load(&gn->switches_in));
+              for (k = 0; k < distinct && k < 400; ++k)
+                if (rep[k] > 2) fprintf(stderr, "[bypass-debug]   %p ran %ld times\n", seen[k], rep[k]);
+            }
+            long ce = atomic_load(&g_max_excess);
+            while (ex > ce && !atomic_compare_exchange_weak(&g_max_excess, &ce, ex)) {
+            }
+          }
           if (lim && bypass > lim + atomic_load(&g_bypass_slack_per_live) * atomic_load(&g_live_peak)) {
             gviol("C10", "yield:ready-fiber-bypassed",
                   "fiber %p sat ready in the run queues of thread %d while that thread switched to other fibers %ld times (limit %ld + %ld x %ld fibers alive at most)",
@@ -226,6 +270,7 @@ static void ghost_obs(int point, const void* a, const void* b, int me) {
       const int si = sched_idx(a);
       atomic_store(&g->queued_sched, (uintptr_t)a);
       atomic_store(&g->queued_mark, atomic_load(&g_sched[si].sw));
+      atomic_store(&g->mark_gen, atomic_load(&g_arm_gen));
       vp_add(c_sched, 1);
       atomic_fetch_add(&g_epoch, 1);
       break;
@@ -235,13 +280,22 @@ static void ghost_obs(int point, const void* a, const void* b, int me) {
       const int si = sched_idx(a);
       atomic_store(&g->queued_sched, (uintptr_t)a);
       atomic_store(&g->queued_mark, atomic_load(&g_sched[si].sw));
+      atomic_store(&g->mark_gen, atomic_load(&g_arm_gen));
       vp_add(c_steal, 1);
       atomic_fetch_add(&g_epoch, 1);
       break;
     }
-    case FV_SAVING_SKIP:
+    case FV_SAVING_SKIP: {
+      // popped while its previous suspension is still being completed on another thread: it could not have been run, and the
+      // scheduler puts it behind the batch that is being collected. Its time as a *ready* fiber in this queue starts now.
+      vp_gfiber_t* g = gfind(b, 1);
+      const int si = sched_idx(a);
+      atomic_store(&g->queued_sched, (uintptr_t)a);
+      atomic_store(&g->queued_mark, atomic_load(&g_sched[si].sw));
+      atomic_store(&g->mark_gen, atomic_load(&g_arm_gen));
       vp_add(c_skip, 1);
       break;
+    }
     case FV_IDLE: {
       atomic_store(&g_thr[me].is_mgr, 1);
       const uint64_t e = atomic_load(&g_epoch);
@@ -365,6 +419,7 @@ long vp_ghost_max_bypass(void) { return atomic_load(&g_max_bypass); }
 void vp_ghost_reset_bypass(void) { atomic_store(&g_max_bypass, 0); }
 void vp_ghost_set_bypass_limit(long base, long per_live_fiber) {
   atomic_store(&g_bypass_slack_per_live, per_live_fiber);
+  atomic_fetch_add(&g_arm_gen, 1);
   atomic_store(&g_live_peak, atomic_load(&g_live));
   atomic_store(&g_bypass_limit, base);
 }
@@ -430,6 +485,7 @@ void vp_ghost_dump(FILE* f, int max) {
 void vp_ghost_report_counters(void) {
   if (!c_switch) return;
   vp_counter("ghost_max_bypass")->v = atomic_load(&g_max_bypass);
+  if (atomic_load(&g_max_excess) > -1000000) vp_counter("ghost_max_bypass_beyond_twice_the_live_fibers")->v = atomic_load(&g_max_excess);
   vp_counter("ghost_ticks")->v = (long)atomic_load(&g_ticks);
   vp_counter("ghost_live_fibers_at_end")->v = atomic_load(&g_live);
 }
